@@ -224,6 +224,9 @@ Proof.
       exists (IApprox a v), (a ++ "~"%byte :: "="%byte :: s). repeat split; [rewrite <- app_assoc; reflexivity|now constructor].
 Qed.
 
+Lemma opt_dn_inv i b r : opt_dn i = (b, r) -> i = (if b then [":"; "d"; "n"]%byte else []) ++ r.
+Proof. unfold opt_dn. destruct (tag [":"; "d"; "n"]%byte i) as [r'|] eqn:E; [|intros [= <- <-]; reflexivity].
+  destruct r' as [|c r'']; [intros [= <- <-]; reflexivity|]. destruct (beq c ":"%byte); intros [= <- <-]; [now apply tag_inv in E|reflexivity]. Qed.
 Lemma opt_tag_inv t i b r : opt_tag t i = (b, r) -> i = (if b then t else []) ++ r.
 Proof. unfold opt_tag. destruct (tag t i) as [r'|] eqn:E; intros [= <- <-]; [now apply tag_inv in E|reflexivity]. Qed.
 Lemma opt_mrule_inv i mr r : opt_mrule i = (mr, r) ->
@@ -235,19 +238,19 @@ Proof. unfold opt_mrule. destruct (tag [":"%byte] i) as [r1|] eqn:E1; [|intros [
 Theorem attr_dn_mrule_inv i t r : attr_dn_mrule i = Some (t, r) -> exists it s, i = s ++ r /\ ItemStrL it s /\ t = ber_item it.
 Proof.
   unfold attr_dn_mrule. destruct (attributedescription i) as [[a r0]|] eqn:Ea; [|discriminate].
-  destruct (opt_tag [":"; "d"; "n"]%byte r0) as [dn r1] eqn:Ed. destruct (opt_mrule r1) as [mr r2] eqn:Em.
+  destruct (opt_dn r0) as [dn r1] eqn:Ed. destruct (opt_mrule r1) as [mr r2] eqn:Em.
   destruct (tag [":"; "="]%byte r2) as [r3|] eqn:Et; [|discriminate]. destruct (unescaped r3) as [[v r4]|] eqn:Eu; [|discriminate]. intros [= <- <-].
-  destruct (attributedescription_inv _ _ _ Ea) as [-> Ha]. apply opt_tag_inv in Ed. destruct (opt_mrule_inv _ _ _ Em) as [E2 Hm].
+  destruct (attributedescription_inv _ _ _ Ea) as [-> Ha]. apply opt_dn_inv in Ed. destruct (opt_mrule_inv _ _ _ Em) as [E2 Hm].
   apply tag_inv in Et. destruct (unescaped_inv _ _ _ Eu) as (s & -> & Hv). subst r0 r1 r2.
   exists (IExt mr (Some a) dn v), (a ++ dnstr dn ++ (match mr with Some m => ":"%byte :: m | None => [] end) ++ ":"%byte :: "="%byte :: s).
   repeat split; [|now constructor]. unfold dnstr. destruct dn; rewrite <- !app_assoc; cbn; now rewrite <- ?app_assoc.
 Qed.
 Theorem dn_mrule_inv i t r : dn_mrule i = Some (t, r) -> exists it s, i = s ++ r /\ ItemStrL it s /\ t = ber_item it.
 Proof.
-  unfold dn_mrule. destruct (opt_tag [":"; "d"; "n"]%byte i) as [dn r1] eqn:Ed.
+  unfold dn_mrule. destruct (opt_dn i) as [dn r1] eqn:Ed.
   destruct (tag [":"%byte] r1) as [r1'|] eqn:Ec; [|discriminate]. destruct (attributetype r1') as [[m r2]|] eqn:Em; [|discriminate].
   destruct (tag [":"; "="]%byte r2) as [r3|] eqn:Et; [|discriminate]. destruct (unescaped r3) as [[v r4]|] eqn:Eu; [|discriminate]. intros [= <- <-].
-  apply opt_tag_inv in Ed. apply tag_inv in Ec. destruct (attributetype_inv _ _ _ Em) as [-> Hm]. apply tag_inv in Et.
+  apply opt_dn_inv in Ed. apply tag_inv in Ec. destruct (attributetype_inv _ _ _ Em) as [-> Hm]. apply tag_inv in Et.
   destruct (unescaped_inv _ _ _ Eu) as (s & -> & Hv). subst i r1 r2.
   exists (IExt (Some m) None dn v), (dnstr dn ++ ":"%byte :: m ++ ":"%byte :: "="%byte :: s).
   repeat split; [|now constructor]. unfold dnstr. destruct dn; cbn; rewrite <- ?app_assoc; cbn; now rewrite <- ?app_assoc.
